@@ -184,6 +184,25 @@ func (c *Ctx) ruleAckAfterDistribute(id string) {
 		key := fmt.Sprintf("completion-callback invocation #%d in %s", i, c.fname(f))
 		ds := core.CallsTo(f, dist)
 		if len(ds) == 0 {
+			// Distribute may be called by a helper that hands its error back (err := handlePublish(ctx, in)): the helper
+			// stands for it if it tests or returns that error and returns non-nil whenever Distribute failed
+			for _, cl := range core.CallsIn(f) {
+				g := cl.Static
+				if g == nil || g.Package() != f.Package() || len(g.Blocks) == 0 || cl.Value() == nil {
+					continue
+				}
+				res := g.Signature.Results()
+				if res.Len() == 0 || !types.Identical(res.At(res.Len()-1).Type(), errorType) || !c.reaches(g, 2, isAny(dist)) {
+					continue
+				}
+				fs, _, err := c.errDiscipline(g, isAny(dist))
+				if err == nil && len(fs) == 0 && len(core.CallsTo(g, dist)) > 0 {
+					ds = append(ds, cl)
+					c.R.Fn(c.fname(g))
+				}
+			}
+		}
+		if len(ds) == 0 {
 			ru.Fail(key, c.whereI(inv.Instr), "the completion callback is invoked in a function that never calls Distribute")
 			continue
 		}
